@@ -124,7 +124,10 @@ def eigensolver_explains(ra, rb):
     """the two calls handed the eigensolver byte-identical arguments and got different eigenvectors back: the
     difference between the two results then comes from state hidden inside ARPACK (its restart-vector generator
     keeps a Fortran SAVE'd seed across calls), not from the Python code"""
-    return len(ra) == len(rb) and len(ra) > 0 and all(x[0] == y[0] for x, y in zip(ra, rb)) and any(x[1] != y[1] for x, y in zip(ra, rb))
+    # a call without a start vector (v0 None) lets ARPACK draw its own: then the library did not pass the seed on, and the
+    # difference is the library's, not the solver's
+    return len(ra) == len(rb) and len(ra) > 0 and all(x[0] == y[0] and x[0][3] is not None for x, y in zip(ra, rb)) \
+        and any(x[1] != y[1] for x, y in zip(ra, rb))
 
 
 def perturb(rng, table):
